@@ -21,6 +21,8 @@ fn table() -> Vec<(&'static str, &'static str, RunFn, ReplayFn)> {
         ("C11", "exploration", props::c11::run, props::c11::replay),
         ("C13", "exploration", props::c13::run, props::c13::replay),
         ("C14", "exploration", props::c14::run, props::c14::replay),
+        ("C16", "fault_enumeration", props::c16::run, props::c16::replay),
+        ("C17", "exploration", props::c17::run, props::c17::replay),
         ("C18", "exploration", props::c18::run, props::c18::replay),
         ("C19", "exploration", props::c19::run, props::c19::replay),
         ("C20", "exploration", props::c20::run, props::c20::replay),
